@@ -13,6 +13,7 @@ RULE = ('E3: for each (n,p) in scope ALL 2^(n*p) distances are enumerated throug
         'scalar entry points on all cells for small p. E1 (Hypothesis): cases (n,p,distances,cells) with p up to '
         '31 (n=2), 20 (n=3), 62 (n=1) and bit-pattern-biased values; same relations per item. '
         'Every (n,p,cell) is non-trivial; distinct = enumerated cells (distinct by construction) + distinct E1 cases.')
+RULE += (' Added after the seeded rounds: vectorised entry points also fed every integer dtype that holds the values.')
 ASSUMPTIONS = ['numpy int64 arithmetic (n*p <= 62)',
                'the n=2 reference curve in vpbt/oracle_hilbert.py (self-tested for bijection/adjacency/end points at every start)']
 SCOPE = {'quick': {'n2_p': [1, 9], 'n3_p': [1, 5], 'n1_p': [1, 16]},
